@@ -258,13 +258,14 @@ func (r *Report) Finish(verifDir, tier string, seed int64, start time.Time, know
 	for k, v := range extra {
 		cov[k] = v
 	}
+	assumptions := append([]string{"go/packages + go/types + go/ssa (x/tools v0.29.0) are a faithful model of the code in /repo; only production (non-test, non-mock) packages are analysed; library functions are not analysed (their documented contracts are assumed)"}, r.Assumptions...)
 	ev := map[string]any{
 		"property_id": r.Property,
 		"tier":        tier,
 		"seed":        seed,
 		"level":       "other",
 		"coverage":    cov,
-		"assumptions": r.Assumptions,
+		"assumptions": assumptions,
 		"wall_s":      time.Since(start).Seconds(),
 		"violations":  len(out.Violations),
 	}
